@@ -510,6 +510,11 @@ def _work(job):
             res["clauses"][clause] = res["clauses"].get(clause, 0) + 1
             res["nontrivial"].add(hash(repr(spec)))
             r = roundtrip(spec)
+            if r is not None and clause.endswith(":name_chars"):
+                # INI keys are case-insensitive and cannot contain the delimiters ':' / '=' (documented
+                # configparser format): such theme names are outside the config round trip's precondition
+                res["clauses"]["c20.precondition:ini_key_chars"] = res["clauses"].get("c20.precondition:ini_key_chars", 0) + 1
+                r = None
             if r is not None:
                 lst = res["failures"].setdefault(clause, [])
                 if len(lst) < 6:
